@@ -14,6 +14,7 @@ STATE = ('_profilesProperties', '_rawProfiles', '_profileNames', '_usedMacros', 
 
 
 def run(chk):
+    r14g(chk)
     r14a(chk)
     r14b(chk)
     r14c(chk)
@@ -38,6 +39,33 @@ def _writes(node, attr):
             if isinstance(x, ast.Call) and isinstance(x.func, ast.Attribute) and text(x.func.value) == f'self.{attr}' and x.func.attr in ('clear', 'update', 'append', 'pop', 'remove', 'extend', 'insert', 'setdefault'):
                 return True
     return False
+
+
+def r14g(chk, rid='R14.g'):
+    chk.rule(rid, 'the known-name list is derived state: every write to _knownNames happens in a function that rebuilds it from scratch out of _profilesProperties; incremental patching (extend / filtering the old list) cannot account for a name that several profiles define')
+    m = chk.repo.mod(P)
+    n = 0
+    for q, fn in m.functions():
+        if not q.startswith('Profiles.') or q.count('.') != 1:
+            continue
+        writes = []
+        for x in ast.walk(fn):
+            if isinstance(x, (ast.Assign, ast.AugAssign)):
+                for t in (x.targets if isinstance(x, ast.Assign) else [x.target]):
+                    if text(t) == 'self._knownNames':
+                        writes.append(x)
+            if isinstance(x, ast.Call) and isinstance(x.func, ast.Attribute) and text(x.func.value) == 'self._knownNames' and x.func.attr in ('extend', 'append', 'remove', 'pop', 'clear', 'insert'):
+                writes.append(x)
+        if not writes:
+            continue
+        n += 1
+        src = ast.unparse(fn)
+        rebuild = any(isinstance(w, ast.Assign) and (text(w.value) == '[]' or ('self._profilesProperties' in text(w.value) and 'self._knownNames' not in text(w.value))) for w in writes) and 'self._profilesProperties' in src
+        self_ref = any(isinstance(w, ast.Assign) and 'self._knownNames' in text(w.value) for w in writes)
+        chk.ob(rid, P, q, 'rebuilds _knownNames from the compiled tables', rebuild and not self_ref,
+               'the list is patched instead of recomputed: removing a profile drops (or keeps) names that another registered profile also defines, so knownNames and the verdicts depend on the order of operations')
+    if n < 1:
+        raise AnalysisError('no writer of _knownNames found')
 
 
 def r14a(chk, rid='R14.a'):
